@@ -58,10 +58,26 @@ CindFailed(r) ==
 
 \* trxcon transmits request r.req; r.raw are the octets it passed to send(),
 \* r.dec is Python's parse of them
+RECURSIVE SumLens(_)
+SumLens(ss) == IF ss = <<>> THEN 0 ELSE Len(Head(ss)) + SumLens(Tail(ss))
 CreqFailed(r) ==
   LET m == [ver |-> 0, fn |-> r.req.fn, tn |-> r.req.tn, pwr |-> r.req.pwr, burst |-> Burst(r.req.bits)] IN
   (IF r.raw = EncTx(m, FALSE) THEN {} ELSE {"C04.trxcon.burst-req.octets"})
   \cup (IF r.dec.ok /\ SameTx(m, r.dec.m) THEN {} ELSE {"C04.trxcon.burst-req.parsed"})
+
+\* a run of requests with send() failing for some of them (r.failed[i]): r.sent[i] is what trxcon
+\* wrote to the socket during request i.  Whatever it does about a failed send (drop the burst, as it
+\* does, or keep it for later), every datagram it writes is the encoding of a request it was given,
+\* none goes out twice, and a request whose send() works goes out during that request.
+ReqEnc(q) == EncTx([ver |-> 0, fn |-> q.fn, tn |-> q.tn, pwr |-> q.pwr, burst |-> Burst(q.bits)], FALSE)
+CseqFailed(r) ==
+  LET N == Len(r.reqs)
+      Given(a) == {ReqEnc(r.reqs[b]) : b \in 1..a}
+      All == [a \in 1..N |-> {r.sent[a][b] : b \in 1..Len(r.sent[a])}]
+      Total == SumLens(r.sent)
+  IN (IF \A a \in 1..N : All[a] \subseteq Given(a) /\ (~r.failed[a] => ReqEnc(r.reqs[a]) \in All[a])
+      THEN {} ELSE {"C04.trxcon.burst-req.octets"})
+     \cup (IF Cardinality(UNION {All[a] : a \in 1..N}) = Total THEN {} ELSE {"C04.trxcon.burst-req.once"})
 
 \* a message outside the documented value ranges that the toolkit nevertheless accepted as valid
 \* (its own validate() passed): C01 speaks about "every message the toolkit accepts as valid"
@@ -85,7 +101,7 @@ CfzFailed(r) ==
        THEN {} ELSE {"C14.trxcon.indication-fields"}
 
 Failed(r) == CASE r.e = "cfz" -> CfzFailed(r) [] r.e = "enc" -> EncFailed(r) [] r.e = "dec" -> DecFailed(r) [] r.e = "acc" -> AccFailed(r)
-               [] r.e = "cind" -> CindFailed(r) [] r.e = "creq" -> CreqFailed(r)
+               [] r.e = "cind" -> CindFailed(r) [] r.e = "creq" -> CreqFailed(r) [] r.e = "cseq" -> CseqFailed(r)
 
 RInit == i = 0
 RNext == i < Len(Recs) /\ i' = i + 1 /\ TLCSet(i + 1, Failed(Recs[i + 1]))
